@@ -250,8 +250,23 @@ func (e *Env) Observe() *Obs {
 		}
 	}
 	sort.Ints(o.Orphans)
+	if selfTest == "obs-spent" && len(o.Spent) > 0 {
+		// self-test of the binding: lose one CheckSpend answer
+		for _, op := range c.Ops {
+			if _, ok := o.Spent[op]; ok {
+				delete(o.Spent, op)
+				break
+			}
+		}
+	}
 	return o
 }
+
+// selfTest (VERIF_SELFTEST) corrupts one observation / expected value / trace
+// field on purpose, to demonstrate that the comparison is not vacuous:
+// obs-spent (a CheckSpend answer is dropped), exp-code (an expected result code
+// of the specification is flipped), tmpl-fee (a reported template fee is off by one).
+var selfTest = os.Getenv("VERIF_SELFTEST")
 
 // ChainHas reports whether the abstract outpoint is unspent in the real chain.
 func (e *Env) ChainHas(op Outpoint) bool {
